@@ -63,3 +63,11 @@ def c10() -> Monitors:
 
 def c06() -> Monitors:
     return Monitors("C06", [m.c06_transition, m.cov_matrix], [], m.outcome_vector)
+
+
+def c07_probe() -> Monitors:
+    return Monitors("C07", [m.c07_transition, m.c07_menu_probe, m.cov_matrix], [m.c07_initial], m.outcome_vector)
+
+
+def c02_probe() -> Monitors:
+    return Monitors("C02", [m.c02_transition, m.c02_menu_probe, m.cov_matrix], [m.c02_initial], m.outcome_vector)
